@@ -165,10 +165,17 @@ def canon(v, _path=None, deep=True):
             return ("list", tuple(canon(x, _path) for x in v))
         if t is tuple:
             return ("tuple", tuple(canon(x, _path) for x in v))
+        # Sets and dict keys are compared as sets of structural values.  The only way two members can have the same
+        # structural value is NaN (one shared NaN object is one member, two evaluations of a NaN expression are two):
+        # identity of NaN objects is outside structural equality, so duplicates are folded.
         if t is dict:
-            return ("dict", tuple(sorted(((canon(k, _path), canon(x, _path)) for k, x in v.items()), key=repr)))
+            d = {}
+            for k, x in v.items():
+                ck = canon(k, _path)
+                d[repr(ck)] = (ck, canon(x, _path))
+            return ("dict", tuple(sorted(d.values(), key=repr)))
         if t is set or t is frozenset:
-            return (t.__name__, tuple(sorted((canon(x, _path) for x in v), key=repr)))
+            return (t.__name__, tuple(sorted({repr(c): c for c in (canon(x, _path) for x in v)}.values(), key=repr)))
         if isinstance(v, GStub):
             return v.canon_callee()
         if isinstance(v, IStub):
